@@ -435,7 +435,17 @@ func (m *Machine) conv(fr *Frame, tdst, tsrc types.Type, x Value) Value {
 		if isString(ud) {
 			return x
 		}
+		if sl, ok := ud.(*types.Slice); ok {
+			if eb, ok := under(sl.Elem()).(*types.Basic); ok && eb.Kind() == types.Uint8 {
+				return &SmtBytes{T: xv.T}
+			}
+		}
 		m.unsupported("conversion of SMT string to %v at %s", tdst, fr.where())
+	case *SmtBytes:
+		if isString(ud) {
+			return &SmtStr{T: xv.T}
+		}
+		m.unsupported("conversion of SMT bytes to %v at %s", tdst, fr.where())
 	case []Value:
 		if isString(ud) {
 			sl := us.(*types.Slice)
